@@ -1,4 +1,5 @@
 import Bxh.Model.Mempool
+import Bxh.Proofs.PoolHeld
 /-!
 # C19 — the pool neither loses accepted transactions nor misreports its content
 Theorems about `evict`, `commit`, `getTx` of `Bxh.Mempool`
@@ -58,5 +59,50 @@ theorem C19_getTx_from_items (p : Pool) (h : String) (tx : TxR) (hg : getTx p h 
 /-- `HasPendingRequest` is exactly "the ready-and-unbatched counter is positive" -/
 theorem C19_pending_flag_is_counter (p : Pool) : hasPending p = true ↔ 0 < p.nonBatch := by
   simp [hasPending]
+
+/-! ## No silent loss, one operation at a time
+
+`hashMap` is what `GetTransaction` looks a hash up in.  For every operation of the pool, a hash that is held
+before the operation is held under the same pointer after it, unless the operation is one of the three
+documented reasons — and then exactly for the transactions that reason names. -/
+
+/-- building batches (leader, timer or size trigger) forgets nothing and alters no held transaction -/
+theorem C19_generate_forgets_nothing (p : Pool) :
+    (generate p).1.hashMap = p.hashMap ∧ (generate p).1.items = p.items := generate_hashMap p
+
+/-- `ProcessTransactions` — whatever the batch, leader or follower: a held hash is forgotten only if the batch
+carries a different transaction for the very (account, nonce) the holder occupies (supersession) -/
+theorem C19_process_forgets_only_superseded (p : Pool) (txs : List TxR) (isLeader : Bool) (group : Nat)
+    (h : String) (ptr : Ptr) (hh : KV.get p.hashMap h = some ptr) :
+    KV.get (process p txs isLeader group).1.hashMap h = some ptr ∨
+      ∃ tx ∈ txs, ∃ old, KV.get p.items (tx.acct, tx.nonce) = some old ∧ old.hash = h ∧ tx.hash ≠ h :=
+  process_hashMap p txs isLeader group h ptr hh
+
+/-- a commit forgets only the hashes it names -/
+theorem C19_commit_forgets_only_committed (p : Pool) (hashes : List String) (h : String) (ptr : Ptr)
+    (hh : KV.get p.hashMap h = some ptr) :
+    KV.get (commit p hashes).hashMap h = some ptr ∨ h ∈ hashes := commit_hashMap p hashes h ptr hh
+
+/-- the age rule forgets only hashes of transactions held under a parked, not batched pointer -/
+theorem C19_evict_forgets_only_parked (p : Pool) (cut : Nat) (h : String) (ptr : Ptr)
+    (hh : KV.get p.hashMap h = some ptr) :
+    KV.get (evict p cut).1.hashMap h = some ptr ∨
+      ∃ pt tx, KV.get p.items pt = some tx ∧ tx.hash = h ∧ pt ∈ p.parking ∧ pt ∉ p.batched :=
+  evict_hashMap p cut h ptr hh
+
+/-- the admission loop lets through only offered transactions whose hash is not held, no two for one (account, nonce) -/
+theorem C19_admission_sound (p : Pool) (txs : List TxR) :
+    (∀ v ∈ (admission p txs).2, v ∈ txs ∧ KV.get p.hashMap v.hash = none) ∧
+    (admission p txs).2.Pairwise (fun a b => (a.acct, a.nonce) ≠ (b.acct, b.nonce)) :=
+  ⟨(admission_facts p txs).2.2.1, (admission_facts p txs).2.2.2⟩
+
+-- premises are satisfiable and the exception is real: inserting a second transaction for (a, 0) forgets the first hash,
+-- inserting one for (a, 1) does not
+example :
+    let t1 : TxR := { acct := "a", nonce := 0, hash := "h1", ts := 1 }
+    let p : Pool := { items := [(("a", 0), t1)], hashMap := [("h1", ("a", 0))] }
+    KV.get p.hashMap "h1" = some ("a", 0) ∧
+    KV.get (insertTxs p [{ acct := "a", nonce := 0, hash := "h9", ts := 2 }] 1).hashMap "h1" = none ∧
+    KV.get (insertTxs p [{ acct := "a", nonce := 1, hash := "h9", ts := 2 }] 1).hashMap "h1" = some ("a", 0) := by decide
 
 end Bxh.Props.C19
